@@ -43,6 +43,10 @@ type Opts struct {
 	// SelfNestedDeco allows a decorator to be used inside its own decorated
 	// block (finding C01-f).
 	SelfNestedDeco bool
+	// Fmt turns up what the formatter has to preserve (C23): string literals
+	// with \" and \\, regexes with \/, tiny bucket bounds, integral float
+	// literals, hidden / as / limit attributes.
+	Fmt bool
 }
 
 // ---------------------------------------------------------------------
@@ -167,6 +171,9 @@ func (g *genCtx) newPattern(forceGroups bool) *Pattern {
 		i = 0
 	}
 	var lits []string
+	if g.o.Fmt && r.Intn(4) == 0 {
+		re.WriteString(`(?:x\/y)?`)
+	}
 	for k := 0; k < n && i < len(fields); k++ {
 		f := fields[i]
 		name := ""
@@ -246,11 +253,11 @@ func (g *genCtx) metric(kind string, t Type, nkeys int) *Metric {
 		}
 		m.KeyTypes = append(m.KeyTypes, kt)
 	}
-	if g.r.Intn(8) == 0 {
+	if g.r.Intn(8) == 0 || (g.o.Fmt && g.r.Intn(3) == 0) {
 		m.Hidden = true
 		g.f("hidden")
 	}
-	if g.r.Intn(10) == 0 {
+	if g.r.Intn(10) == 0 || (g.o.Fmt && g.r.Intn(3) == 0) {
 		m.As = m.Name + "-x"
 		g.f("as")
 	}
@@ -260,6 +267,9 @@ func (g *genCtx) metric(kind string, t Type, nkeys int) *Metric {
 	}
 	if kind == "histogram" {
 		m.Buckets = [][]float64{{1, 2, 4}, {0.5, 1.5, 10, 100}, {1, 1000}}[g.r.Intn(3)]
+		if g.o.Fmt && g.r.Bool() {
+			m.Buckets = [][]float64{{1e-7, 1e-6, 1}, {0.00000025, 0.5}, {1, 2.5, 1e12}}[g.r.Intn(3)]
+		}
 	}
 	g.metrics = append(g.metrics, m)
 	return m
@@ -474,6 +484,9 @@ func (g *genCtx) floatLeaf() Expr {
 			return e
 		}
 	}
+	if g.o.Fmt && g.r.Intn(3) == 0 {
+		return &FloatLit{ev.PickOne(g.r, []float64{5.0, 1.0, 0.0, 1e-7, 100000000.0, 1e21, 2.5e-10})}
+	}
 	return &FloatLit{ev.PickOne(g.r, floatLits)}
 }
 
@@ -521,6 +534,9 @@ func (g *genCtx) floatExpr(depth int) Expr {
 var strLits = []string{"", "x", "foo", "Foo", "BAR", "12", "-5", "1.5", "ff", "a b", "o"}
 
 func (g *genCtx) strLeaf() Expr {
+	if g.o.Fmt && g.r.Intn(4) == 0 {
+		return &StrLit{ev.PickOne(g.r, []string{`a\"b`, `c\\d`, `\"`, `say \"hi\" \\o/`, `tab\there`})}
+	}
 	cs := g.capsOf(TString)
 	switch k := g.r.Intn(10); {
 	case k < 5 && len(cs) > 0:
